@@ -49,10 +49,37 @@ func (s *countingSuspendable) Resume() {
 }
 func (s *countingSuspendable) depth() int { return s.suspends - s.resumes }
 
-type failingReader struct{}
+// probeReader is the lazily read stream behind a buffer returned by the base:
+// it records the suspension depth at every Read, i.e. while the
+// CONSUMER drains the buffer - that is when a stream-backed read
+// really waits for storage, long after base.Get() has returned.
+type probeReader struct {
+	st   *wrapState
+	r    io.Reader
+	fail bool
+}
 
-func (failingReader) Read(p []byte) (int, error) { return 0, errBase }
-func (failingReader) Close() error               { return nil }
+func (p *probeReader) note() {
+	d := p.st.s.depth()
+	if p.st.depthInStream == -1 || d < p.st.depthInStream {
+		p.st.depthInStream = d
+	}
+}
+
+func (p *probeReader) Read(b []byte) (int, error) {
+	p.note()
+	if p.fail {
+		return 0, errBase
+	}
+	return p.r.Read(b)
+}
+
+func (p *probeReader) Close() error {
+	// (Closing the stream is not a wait for storage: when a buffer is
+	// discarded the clock may be resumed before or after it.)
+	p.st.streamClosed = true
+	return nil
+}
 
 // wrapState: implementation + reference.
 type wrapState struct {
@@ -64,6 +91,10 @@ type wrapState struct {
 	// depthInBase: suspension depth observed inside the last base call.
 	depthInBase int
 	ops         int
+	// depthInStream: the LOWEST suspension depth observed by the stream
+	// behind the returned buffer at any of its Read calls (-1: none).
+	depthInStream int
+	streamClosed  bool
 }
 
 type baseBlobAccess struct{ st *wrapState }
@@ -75,9 +106,9 @@ func (b baseBlobAccess) buf() buffer.Buffer {
 	case "error":
 		return buffer.NewBufferFromError(errBase)
 	case "stream", "stream-discard":
-		return buffer.NewCASBufferFromReader(blobDigest, io.NopCloser(bytes.NewReader(blobData)), buffer.UserProvided)
+		return buffer.NewCASBufferFromReader(blobDigest, &probeReader{st: b.st, r: bytes.NewReader(blobData)}, buffer.UserProvided)
 	case "stream-error":
-		return buffer.NewCASBufferFromReader(blobDigest, failingReader{}, buffer.UserProvided)
+		return buffer.NewCASBufferFromReader(blobDigest, &probeReader{st: b.st, fail: true}, buffer.UserProvided)
 	default:
 		return buffer.NewValidatedBufferFromByteSlice(blobData)
 	}
@@ -150,8 +181,22 @@ func wrapOp(name, mode string, call func(st *wrapState) (gotErr bool)) mc.SeqOp 
 			st.mode = mode
 			before, callsBefore := st.s.depth(), st.calls
 			st.depthInBase = -1
+			st.depthInStream, st.streamClosed = -1, false
 			gotErr := call(st)
 			st.ops++
+			if mode == "stream" || mode == "stream-discard" || mode == "stream-error" {
+				// "time during which the worker was stalled on storage" is
+				// excluded: a stream-backed buffer is read from storage while
+				// it is being consumed, so the suspension must still be in
+				// force at every Read of the stream (Resume only at
+				// end-of-stream / discard / error).
+				switch {
+				case (st.depthInStream == -1 && mode != "stream-discard") || !st.streamClosed:
+					c.FailP(prop, "wrapper/stream-not-consumed/"+name, "%s: the stream behind the returned buffer was not read and closed (harness expectation)", full)
+				case st.depthInStream != -1 && st.depthInStream < before+1:
+					c.FailP(prop, "wrapper/resumed-before-drained/"+name, "%s: suspension depth %d (expected %d) while the consumer was reading the stream behind the returned buffer: the clock was resumed when the base call returned, not when the buffer was drained - the storage stall during consumption counts as run time", full, st.depthInStream, before+1)
+				}
+			}
 			if st.calls != callsBefore+1 {
 				c.FailP(prop, "wrapper/base-calls/"+name, "%s: %d calls of the base instead of exactly one", full, st.calls-callsBefore)
 			}
